@@ -193,7 +193,7 @@ func twinCase(env *vlib.Env, h int, rep *vlib.Reporter) {
 	tag, nontriv := stateTag(sh.App)
 	var in injection
 	in.skipKey = -1
-	cls := h % (4 + len(payloadKinds))
+	cls := h % (5 + len(payloadKinds))
 	switch {
 	case cls == 0 || cls == 1:
 		base := hist.U.SignTx(0, 77_000_000+uint64(h), smchain.ChainID, shmsg.NewBlockSeen(9), "base")
@@ -204,6 +204,32 @@ func twinCase(env *vlib.Env, h int, rep *vlib.Reporter) {
 		s := r.Intn(len(hist.U.Keys))
 		in.class = "wrongchain"
 		in.tx = hist.U.SignTx(s, 78_000_000+uint64(h), "another-chain", plausiblePayload(kind, sh.App, hist.U, s, r), "wrongchain-"+kind)
+	case cls == 4:
+		// signature transplant: the signature bytes of a transaction the members sent earlier, or
+		// will send later in this history, in front of a plausible payload
+		var later []smchain.Tx
+		for b := p; b < len(hist.Blocks); b++ {
+			for i, tx := range hist.Blocks[b] {
+				if tx.Signer >= 0 && (b > p || i >= q) {
+					later = append(later, tx)
+				}
+			}
+		}
+		pool, when := earlier, "earlier"
+		if len(later) > 0 && (len(earlier) == 0 || r.Bool()) {
+			pool, when = later, "later"
+		}
+		if len(pool) == 0 {
+			rep.Obs("twin_skipped_no_donor_tx", 1)
+			return
+		}
+		donor := pool[r.Intn(len(pool))]
+		kind := payloadKinds[r.Intn(len(payloadKinds))]
+		in.class = "transplant-" + when
+		in.tx = hist.U.Transplant(donor, 76_000_000+uint64(h), plausiblePayload(kind, sh.App, hist.U, donor.Signer, r), kind)
+		if c := sh.CheckTx(in.tx); c.Code == 0 {
+			rep.Violationf("code0:CheckTx:transplant", map[string]any{"tx": in.tx.Label, "history": h}, "a transaction carrying another transaction's signature bytes passed CheckTx (%s)", in.tx.Label)
+		}
 	case cls == 3:
 		if len(earlier) == 0 {
 			rep.Obs("twin_skipped_no_earlier_tx", 1)
@@ -212,7 +238,7 @@ func twinCase(env *vlib.Env, h int, rep *vlib.Reporter) {
 		in.class, in.tx = "replay", earlier[r.Intn(len(earlier))]
 		in.tx.Label = "REPLAY " + in.tx.Label
 	default:
-		kind := payloadKinds[cls-4]
+		kind := payloadKinds[cls-5]
 		var outs []int
 		for i, a := range hist.U.Addrs {
 			if !isMember(sh.App, a) {
